@@ -127,17 +127,17 @@ func Run(n, mp int, ver primitive.ProtocolVersion, ops []Op, path []int) (canon 
 					fail("C09", "inflight-set", "inFlightRequestsHandler", "after %s: unanswered ids are %v, handler tracks %v", step, want, got)
 				}
 				for _, k := range want {
-				m := inflight[k]
-				// observed through the request's own public handle, not through the handler's map
-				if q := len(m.h.Incoming()); q != len(m.queue) {
-					fail("C10", "queue-length", "inFlightRequest.onFrameReceived", "after %s: request %d has %d undelivered frames, expected %d", step, k, q, len(m.queue))
-				}
-				if d := m.h.IsDone(); d != m.done {
-					fail("C10", "done-flag", "inFlightRequest.close", "after %s: request %d done=%v, expected %v", step, k, d, m.done)
+					m := inflight[k]
+					// observed through the request's own public handle, not through the handler's map
+					if q := len(m.h.Incoming()); q != len(m.queue) {
+						fail("C10", "queue-length", "inFlightRequest.onFrameReceived", "after %s: request %d has %d undelivered frames, expected %d", step, k, q, len(m.queue))
+					}
+					if d := m.h.IsDone(); d != m.done {
+						fail("C10", "done-flag", "inFlightRequest.close", "after %s: request %d done=%v, expected %v", step, k, d, m.done)
+					}
 				}
 			}
-		}
-		for stepNo, oi := range path {
+			for stepNo, oi := range path {
 				op := ops[oi]
 				step := fmt.Sprintf("step %d %s", stepNo, op)
 				switch op.Kind {
